@@ -677,6 +677,27 @@ val network4_accepts_all :
   list -> int list -> int list -> (int -> t) -> (int -> t) -> (int -> t) ->
   (int -> t) -> bool
 
+val swapf : (int -> int) -> int -> int -> int -> int
+
+val argmax_col :
+  ('a1 -> 'a1 -> bool) -> (int -> int -> 'a1) -> int -> int -> int
+
+val pivot_step :
+  ('a1 -> 'a1 -> bool) -> (int -> int -> 'a1) -> int -> (int -> int) -> int
+  -> int -> int
+
+val pivot_perm :
+  ('a1 -> 'a1 -> bool) -> (int -> int -> 'a1) -> int -> int -> int
+
+val apply_pivot :
+  int -> (int -> int -> 'a1) -> (int -> int) -> int -> int -> 'a1
+
+val reconstruct :
+  int -> (int -> int -> 'a1) -> (int -> int) -> int -> int -> 'a1
+
+val reconstruct_colwise :
+  int -> (int -> int -> 'a1) -> (int -> int) -> int -> int -> 'a1
+
 val wrap0 : z -> z -> z
 
 val map2 : ('a1 -> 'a2 -> 'a3) -> 'a1 list -> 'a2 list -> 'a3 list
@@ -920,3 +941,15 @@ val run_lu : int -> z list -> z list * z list
 val run_lu_inverse : int -> z list -> z list
 
 val run_lu_solve : int -> int -> z list -> z list -> z list
+
+val zabs_gt : z -> z -> bool
+
+val permf : int list -> int -> int
+
+val run_pivot : int -> z list -> int list
+
+val run_apply_pivot : int -> z list -> int list -> z list
+
+val run_reconstruct : int -> z list -> int list -> z list
+
+val run_reconstruct_colwise : int -> z list -> int list -> z list
